@@ -127,7 +127,9 @@ Contexts == <<
   [n |-> "string-same-line",    pre |-> <<T("println(\"p"), Slot, T("\"); ")>>,       post |-> <<>>],
   [n |-> "single-quote-string", pre |-> <<T("let s = 'ab"), Slot, T("'\n")>>,          post |-> <<>>],
   [n |-> "multiline-string",    pre |-> <<T("let s = \"\"\"\n  a"), Slot, T("\n  b\n  \"\"\"\n")>>, post |-> <<>>],
-  [n |-> "string-after (control)", pre |-> <<>>,  post |-> <<T("let s = \"ab"), Slot, T("\"\n")>>]
+  [n |-> "string-after (control)", pre |-> <<>>,  post |-> <<T("let s = \"ab"), Slot, T("\"\n")>>],
+  \* the file is a script: its first line is a `#!` line (skipped by the lexer, but part of the text the ranges refer to)
+  [n |-> "shebang-line", pre |-> <<T("#!/usr/bin/env abra "), Slot, T("\n")>>, post |-> <<>>]
 >>
 
 \* valid lines between the slot and the erroneous statement
